@@ -384,3 +384,7 @@ VARIANTS += [
 VARIANTS += [
     V("C04", "imports inside functions recorded as re-exports again", VIS, "            if not import_.is_top_level:\n                continue\n\n", "", "C04.REEXPORT-SOURCE"),
 ]
+VARIANTS += [
+    V("C04", "by-name re-export matched by plain suffix again", VIS, "if f\".{qname}\".endswith(f\".{qualified_import.qualified_name}\") and (", "if qname.endswith(qualified_import.qualified_name) and (", "C04.REEXPORT-GUARDS"),
+    V("C04", "every name ending in two underscores exempt again", VIS, "if is_internal(name) and not (name.startswith(\"__\") and name.endswith(\"__\")):", "if is_internal(name) and not name.endswith(\"__\"):", "C04.PUBLICITY-TABLE"),
+]
